@@ -150,3 +150,19 @@ def _c04_retry_after_any_status(f: Failure) -> bool:
         and o["retry_after_status"] not in (413, 429, 503)
         and o.get("retry_after_status_forcelisted") is True  # retried for another reason; the header only set the sleep
     )
+
+
+# ---------------------------------------------------------------------------------- C01 -------
+@finding("C01", "released-unread-close-response-keeps-socket")
+def _c01_released_unread_will_close(f: Failure) -> bool:
+    """A streamed response whose server asked for 'Connection: close' (or that is close-delimited) is detached from its
+    connection object by http.client; release_conn() before the body was read to the end then returns the (socket-less)
+    connection to the pool while the response's file object keeps the socket open until the response is collected."""
+    o = f["observed"] or {}
+    served = o.get("served") or []
+    return (
+        f["kind"] == "socket-open-outside-pool"
+        and len(served) > 0
+        and all(s_.get("will_close") is True and s_.get("disposal") in ("release-unread", "read-part-release") for s_ in served)
+        and o.get("preload") is False
+    )
